@@ -2,6 +2,7 @@
 package main
 
 import (
+	"encoding/json"
 	"errors"
 	"fmt"
 	"runtime"
@@ -88,7 +89,10 @@ var entries = []entry{
 	{"date.Date.UnmarshalBinary", "date", []int{0}, false, func(in []byte, _ int) error { var d date.Date; return d.UnmarshalBinary(in) }},
 	{"date.Date.Scan", "date", []int{0}, false, func(in []byte, _ int) error {
 		var d date.Date
-		for _, src := range []any{in, string(in), nil, len(in), time.Unix(int64(len(in)), 0), &in, 1.5, struct{}{}, []any{in}} {
+		str, tm := string(in), time.Unix(int64(len(in)), 0)
+		for _, src := range []any{in, string(in), nil, len(in), tm, &in, 1.5, struct{}{}, []any{in},
+			&str, &tm, &d, (*time.Time)(nil), (*string)(nil), (*[]byte)(nil), (*date.Date)(nil), (*int)(nil), (any)(nil), []byte(nil), time.Time{}, &time.Time{},
+			json.RawMessage(in), fmt.Stringer(nil), error(nil), map[string]any(nil), func() {}, make(chan int), uintptr(0), int64(len(in)), true} {
 			_ = d.Scan(src)
 		}
 		return nil
@@ -261,6 +265,9 @@ type allocArg struct {
 	Limit int    `json:"limit_mode"`
 	Fill  string `json:"fill"`
 	Len   int    `json:"len"`
+	// In, when set, is a short input that *names* something big (a number with a huge exponent): the work an entry point
+	// does must be bounded by the size of its input, not by the magnitude it spells.
+	In mc.Bin `json:"in,omitempty"`
 }
 
 func setupAlloc(a allocArg) { setLimits(a.Limit) }
@@ -281,6 +288,11 @@ func longInput(fill string, n int) []byte {
 func probeAlloc(a allocArg) (string, string) {
 	e := entries[a.Entry]
 	in := longInput(a.Fill, a.Len)
+	bound := uint64(8<<20) + 512*uint64(a.Len)
+	if a.In != "" {
+		in = []byte(a.In)
+		bound = uint64(1<<20) + 512*uint64(len(in))
+	}
 	var m0, m1 runtime.MemStats
 	runtime.ReadMemStats(&m0)
 	t0 := time.Now()
@@ -288,9 +300,14 @@ func probeAlloc(a allocArg) (string, string) {
 	el := time.Since(t0)
 	runtime.ReadMemStats(&m1)
 	alloc := m1.TotalAlloc - m0.TotalAlloc
-	bound := uint64(8<<20) + 512*uint64(a.Len)
 	if alloc > bound {
+		if a.In != "" {
+			return "runaway_allocation", fmt.Sprintf("%s on the %d-byte input %q allocated %d bytes (bound %d), took %v, err=%.80v", e.name, len(in), in, alloc, bound, el, err)
+		}
 		return "runaway_allocation", fmt.Sprintf("%s on %d bytes of %q allocated %d bytes (bound %d), took %v, err=%.80v", e.name, a.Len, a.Fill, alloc, bound, el, err)
+	}
+	if a.In != "" {
+		return "", ""
 	}
 	if e.limited {
 		return judgeLimit(e.pkg, a.Limit, a.Len, err, strings.Contains(a.Fill, marker), e.name)
@@ -520,6 +537,29 @@ func main() {
 					}
 				}
 				w.Outcome("long runs")
+				reset()
+			})
+		})
+		r.Phase("short inputs that spell a huge magnitude (exponents of 3 000 000 in every position a number can take, in text, JSON number, string and object form) into every one-input entry point x every rule: allocation bound 1 MiB + 512 x len", "complete grid (serial)", func() {
+			r.Serial(func(w *mc.W) {
+				var ins []string
+				for _, n := range []string{"1e3000000", "1E3000000", "1e+3000000", "1.0e3000000", "0e3000000", "1e-3000000", "9.9E+3000000", "1e3000000kB", "1 e3000000", "1e3000000 B"} {
+					ins = append(ins, n, `"`+n+`"`, `{"value":`+n+`,"unit":"B"}`, `{"unit":"kB","value":`+n+`}`, `{"value":"`+n+`","unit":"B"}`, `{"value":1,"unit":"B","x":`+n+`}`, `[`+n+`]`)
+				}
+				setLimits(0)
+				for ei, e := range entries {
+					if e.name == "date.Date.Scan" {
+						continue
+					}
+					for _, in := range ins {
+						for _, rule := range e.rules {
+							w.Point()
+							w.NonTrivial()
+							p3.Do(w, allocArg{Entry: ei, Name: e.name, Rule: rule, In: mc.Bin(in)})
+						}
+					}
+				}
+				w.Outcome("huge magnitudes")
 				reset()
 			})
 		})
